@@ -78,6 +78,9 @@ const (
 	SFootnote       = "footnote"
 	SDefList        = "deflist"
 	STypographer    = "typographer"
+	// STableParts: the table extension's exported parts wired by hand - NewTableParagraphTransformer and NewTableHTMLRenderer -
+	// without its AST transformer (which only repairs escaped pipes inside code spans)
+	STableParts = "table-parts"
 	// STypographerUTF8: Typographer whose replacements are the characters themselves (UTF-8) instead of character references
 	STypographerUTF8 = "typographer-utf8"
 	SCJKSimple      = "cjk-simple"
@@ -247,6 +250,10 @@ func (s Spec) typographer() goldmark.Extender {
 	return extension.Typographer
 }
 
+type extenderFunc func(m goldmark.Markdown)
+
+func (f extenderFunc) Extend(m goldmark.Markdown) { f(m) }
+
 func (s Spec) single(name string) goldmark.Extender {
 	switch name {
 	case SLinkify:
@@ -263,6 +270,11 @@ func (s Spec) single(name string) goldmark.Extender {
 		return extension.DefinitionList
 	case STypographer:
 		return s.typographer()
+	case STableParts:
+		return extenderFunc(func(m goldmark.Markdown) {
+			m.Parser().AddOptions(parser.WithParagraphTransformers(util.Prioritized(extension.NewTableParagraphTransformer(), 200)))
+			m.Renderer().AddOptions(renderer.WithNodeRenderers(util.Prioritized(extension.NewTableHTMLRenderer(), 500)))
+		})
 	case STypographerUTF8:
 		return extension.NewTypographer(extension.WithTypographicSubstitutions(map[extension.TypographicPunctuation]string{
 			extension.LeftSingleQuote: "‘", extension.RightSingleQuote: "’", extension.LeftDoubleQuote: "“", extension.RightDoubleQuote: "”", extension.EnDash: "–", extension.EmDash: "—",
